@@ -65,13 +65,18 @@ RDATA = {
 }
 
 
-def rdataset_for(ty, cov, alt=False):
+CH_A = ("a.other. 1", "a.other. 2")      # Chaosnet A: domain + octal address
+
+
+def rdataset_for(ty, cov, alt=False, cls=dns.rdataclass.IN):
     if ty == RRSIG:
         text = f"{dns.rdatatype.to_text(cov)} 8 2 300 20300101000000 20200101000000 {2 if alt else 1} example. AAAA"
+    elif ty == 1 and cls == dns.rdataclass.CH:
+        text = CH_A[1 if alt else 0]
     else:
         text = RDATA[ty][1 if alt else 0]
-    rd = dns.rdata.from_text(dns.rdataclass.IN, ty, text)
-    rds = dns.rdataset.Rdataset(dns.rdataclass.IN, ty, cov if ty == RRSIG else 0, ttl=300)
+    rd = dns.rdata.from_text(cls, ty, text)
+    rds = dns.rdataset.Rdataset(cls, ty, cov if ty == RRSIG else 0, ttl=300)
     rds.add(rd)
     return rds
 
@@ -199,7 +204,9 @@ def text_name(labels):
     return ".".join(l.decode("ascii") for l in labels)
 
 
-def rdata_text(ty, cov, alt=False):
+def rdata_text(ty, cov, alt=False, ch=False):
+    if ty == 1 and ch:
+        return CH_A[1 if alt else 0]
     if ty == RRSIG:
         return f"{dns.rdatatype.to_text(cov)} 8 2 300 20300101000000 20200101000000 {2 if alt else 1} example. AAAA"
     return RDATA[ty][1 if alt else 0]
@@ -219,14 +226,33 @@ def load_text(case):
         ty, cov = int(f[2]), int(f[3])
         alt = (f[1], ty, cov) in seen      # a second line for the same rdataset carries another rdata
         seen.add((f[1], ty, cov))
-        lines.append(f"{text_name(dec_labels(f[1]))} 300 IN {dns.rdatatype.to_text(ty)} {rdata_text(ty, cov, alt)}")
+        ch = case.get("cls") == "CH"
+        lines.append(f"{text_name(dec_labels(f[1]))} 300 {'CH' if ch else 'IN'} {dns.rdatatype.to_text(ty)} {rdata_text(ty, cov, alt, ch)}")
     return "\n".join(lines) + "\n"
 
 
 def load_zone(case):
     origin = dns.name.Name([bytes.fromhex(x) for x in case["origin"]])
     return dns.zone.from_text(load_text(case), origin=None if case["load"]["origin_from_text"] else origin,
+                              rdclass=dns.rdataclass.CH if case.get("cls") == "CH" else dns.rdataclass.IN,
                               relativize=bool(case["rel"]), zone_factory=dns.btreezone.Zone)
+
+
+class _Abort(Exception):
+    pass
+
+
+def api_view(version, apex_key):
+    """what the public predicates say, per node: must be the flag bits (Node.is_origin / is_delegation / is_glue /
+    is_origin_or_glue), and the zone-level iteration must be the version's order"""
+    bad = []
+    for name, node in version.nodes.items():
+        fl = int(node.flags)
+        got = (bool(node.is_origin()), bool(node.is_delegation()), bool(node.is_glue()), bool(node.is_origin_or_glue()))
+        want = (bool(fl & F_ORIGIN), bool(fl & F_DELEG), bool(fl & F_GLUE), bool(fl & (F_ORIGIN | F_GLUE)))
+        if got != want:
+            bad.append(f"{enc_labels(low(name.labels))}: predicates {got} for flags {fl}")
+    return bad
 
 
 def evaluate(case):
@@ -239,7 +265,9 @@ def evaluate(case):
     apex = () if rel else low(origin_labels)
     load = case.get("load")
     quiet = bool(case.get("quiet"))
-    zone = None if load else dns.btreezone.Zone(origin, relativize=rel)
+    cls = dns.rdataclass.CH if case.get("cls") == "CH" else dns.rdataclass.IN
+    zone = None if load else dns.btreezone.Zone(origin, rdclass=cls, relativize=rel)
+    held = []           # (version object, snapshot at commit): committed versions must never change afterwards
     out, spec_out, fails = [], [], []
     marks = []          # per transaction end / query: does the property hold there? (for the guard implication)
     txn = None          # open transaction (or "failed")
@@ -338,8 +366,15 @@ def evaluate(case):
         try:
             if commit:
                 txn.commit()
-            else:
+            elif len(out) % 2:
                 txn.rollback()
+            else:
+                # the other way a transaction is abandoned: an exception leaving the `with` block
+                try:
+                    with txn:
+                        raise _Abort()
+                except _Abort:
+                    pass
         except BaseException as e:  # pragma: no cover
             out.append("FOREIGN:" + type(e).__name__)
             fails.append(("C20/txn-end/foreign-exception:" + type(e).__name__, f"commit/rollback raised {e!r}"))
@@ -356,6 +391,21 @@ def evaluate(case):
             return
         out.append("C" + show_snap(v))
         stats["commits"] += 1
+        if not any(h is v for h, _ in held):
+            held.append((v, show_snap(v)))
+        bad = api_view(v, apex)
+        if bad:
+            fails.append(("C20/api/node-predicates-disagree-with-flags", "; ".join(bad[:3])))
+        try:
+            with zone.reader() as rtxn:
+                it = [low(n.labels) for n in rtxn.iterate_names()]
+            zk = [low(n.labels) for n in zone.keys()]
+        except BaseException as e:
+            it = zk = None
+            fails.append(("C20/api/iteration-raises:" + type(e).__name__, repr(e)))
+        vk = [low(n.labels) for n in v.nodes.keys()]
+        if it is not None and (it != vk or zk != vk):
+            fails.append(("C20/api/iteration-order", f"reader.iterate_names() / zone.keys() differ from the version's order: {it!r} {zk!r} {vk!r}"))
         # a rollback (or replacement) may bring back a consistent state: re-evaluate taint from the committed version
         clauses, sp = check_state(v, "commit", None)
         marks.append(("g", not clauses))
@@ -435,6 +485,29 @@ def evaluate(case):
             got = {"left": low(b.left.labels), "right": None if b.right is None else low(b.right.labels),
                    "ce": low(b.closest_encloser.labels), "eq": bool(b.is_equal), "deleg": bool(b.is_delegation)}
             out.append(show_bounds(got["left"], got["right"], got["ce"], got["eq"], got["deleg"]))
+            # the same query given as text (bounds accepts `Name | str`), the `name` field, and the index API itself
+            if key is not None:
+                if low(b.name.labels) != key:
+                    fails.append(("C20/bounds/name-field", f"bounds({q}).name = {b.name!r}, the validated query name is {key!r}"))
+                if all(l and all(48 <= c <= 57 or 65 <= c <= 90 or 97 <= c <= 122 for c in l) for l in q.labels if l != b""):
+                    try:
+                        b2 = v.bounds(q.to_text())
+                        if b2 != b:
+                            fails.append(("C20/bounds/str-query-differs", f"bounds({q.to_text()!r}) = {b2}, bounds(Name) = {b}"))
+                    except BaseException as e:
+                        fails.append(("C20/bounds/str-query-raises:" + type(e).__name__, f"bounds({q.to_text()!r}) raised {e!r}"))
+                if not tainted:
+                    vq = dns.name.Name(key)
+                    try:
+                        dcut, dsub = v.delegations.get_delegation(vq)
+                        dglue = v.delegations.is_glue(vq)
+                        wcut = next((a for a in [key] + sp.ancestors(key) if sp.is_deleg(a)), None)
+                        gotd = (None if dcut is None else low(dcut.labels), bool(dsub), bool(dglue))
+                        wantd = (wcut, wcut is not None and wcut != key, wcut is not None and wcut != key)
+                        if gotd != wantd:
+                            fails.append(("C20/index-api/get_delegation-is_glue", f"delegations.get_delegation/is_glue({enc_labels(key)}) = {gotd!r}, definition says {wantd!r}; zone {show_snap(v)}"))
+                    except BaseException as e:
+                        fails.append(("C20/index-api/raises:" + type(e).__name__, repr(e)))
             if key is None:
                 fails.append(("C20/bounds/accepts-out-of-zone-name", f"bounds({q}) returned {b}"))
                 continue
@@ -465,7 +538,7 @@ def evaluate(case):
         try:
             if f[0] in ("p", "r"):
                 ty, cov = int(f[2]), int(f[3])
-                rds = rdataset_for(ty, cov)
+                rds = rdataset_for(ty, cov, cls=cls)
                 (txn.add if f[0] == "p" else txn.replace)(name, rds)
                 kind = "put"
             elif f[0] == "dn":
@@ -480,7 +553,7 @@ def evaluate(case):
                 kind = "delrds"
             elif f[0] == "dx":
                 ty, cov = int(f[2]), int(f[3])
-                txn.delete(name, rdataset_for(ty, cov, alt=(f[4] == "0")))
+                txn.delete(name, rdataset_for(ty, cov, alt=(f[4] == "0"), cls=cls))
                 kind = "delrdata" if f[4] == "1" else "put"
             else:
                 raise RuntimeError("bad item " + item)
@@ -504,6 +577,15 @@ def evaluate(case):
             out.append(tok + show_snap(txn.version))
             after_op(txn.version, (kind, key, ty, cov), pre_sp)
     close()
+    for hv, snap0 in held:
+        try:
+            now = show_snap(hv)
+        except BaseException as e:
+            now = "raises " + repr(e)
+        if now != snap0:
+            fails.append(("C20/versions/committed-version-changed-later",
+                          f"a committed version changed after later transactions: was {snap0}, is {now}"))
+            break
     # a query "holds" when the implementation's answer is the definition's answer
     bi = [t for t in out if t.startswith("B")]
     bs = [t for t in spec_out if t.startswith("B")]
@@ -866,7 +948,10 @@ def gen_history(rng, avoid=False, queries=True, malformed=False):
                 items.append("Q:" + enc(spell(rng, q, cfg)))
             if malformed:
                 items.append("Q:" + enc([b"a", b"other", b""]))
-    return {"kind": "hist", "rel": rel, "origin": hexl(origin), "items": items}
+    c = {"kind": "hist", "rel": rel, "origin": hexl(origin), "items": items}
+    if rng.chance(1, 5):
+        c["cls"] = "CH"        # the zone's class is an option the flag logic must honour (node.get_rdataset(zone.rdclass, NS))
+    return c
 
 
 def all_abc_names(maxlen=3):
@@ -956,6 +1041,8 @@ def gen_loads(rng):
                 items += ["Q:" + enc(list(q) + list(origin) if (not rel) != rng.chance(1, 5) else list(q)) for q in queries]
                 cases.append({"kind": "hist", "rel": rel, "origin": hexl(origin), "items": items,
                               "load": {"origin_from_text": origin_from_text}})
+                if rng.chance(1, 6):
+                    cases[-1]["cls"] = "CH"
     return cases
 
 
@@ -988,7 +1075,9 @@ def gen_big(rng, total):
 
 
 def run_case(ctx, c, tag):
-    ctx.case((tag, c["rel"], tuple(c["origin"]), tuple(c["items"]), str(c.get("load"))), sample=c)
+    ctx.case((tag, c["rel"], tuple(c["origin"]), tuple(c["items"]), str(c.get("load")), c.get("cls")), sample=c)
+    if c.get("cls"):
+        ctx.count("gen.class-CH")
     ctx.count("gen." + tag)
     return eval_case(ctx, c)
 
